@@ -434,6 +434,82 @@ func TestC07Race(t *testing.T) {
 		})
 	}
 	_ = reflect.TypeOf
+
+	// The package-level default instance: every round uses struct types that did not
+	// exist before (unique field names), so each round is a concurrent FIRST use on the
+	// shared default registry; results are compared with a private fresh instance.
+	for r := 0; r < rounds/3; r++ {
+		inner := vh.StructOf(vh.F(fmt.Sprintf("I%d", r), 1, vh.T(vh.KInt)), vh.FOpt(fmt.Sprintf("S%d", r), 2, "intern", vh.T(vh.KString)))
+		outer := vh.StructOf(vh.F(fmt.Sprintf("A%d", r), 1, vh.SliceOf(inner)), vh.F(fmt.Sprintf("M%d", r), 2, vh.MapOf(vh.T(vh.KString), vh.PtrOf(inner))), vh.F("Z", 3, vh.T(vh.KInt)))
+		types := []*vh.TSpec{outer, vh.SliceOf(outer), inner}
+		n := 2 + r%4
+		want := make([]string, n)
+		got := make([]string, n)
+		ops := make([]c07Op, n)
+		for i := range ops {
+			ts := types[(r+i)%len(types)]
+			ops[i] = c07Op{Kind: []string{"marshal", "unmarshal", "codec"}[(r+i)%3], T: ts, V: c07FixedVal(ts)}
+			want[i], _ = runOp(vh.NewPlenc(vh.Cfg{}), ops[i], vh.Cfg{})
+		}
+		var wg sync.WaitGroup
+		start := make(chan struct{})
+		for i := range ops {
+			wg.Add(1)
+			go func(i int) {
+				defer wg.Done()
+				<-start
+				got[i] = runOpDefault(ops[i])
+			}(i)
+		}
+		close(start)
+		wg.Wait()
+		for i := range ops {
+			if got[i] != want[i] {
+				f := vh.Fail("C07/default-instance-result-differs", "round %d op %d (%s %s) through the package-level functions: %.300s\non a private instance: %.300s", r, i, ops[i].Kind, ops[i].T, got[i], want[i])
+				vh.WriteFailure("C07", "owned-schedule", c07Case{Family: "default-instance", Ops: ops}, f)
+				t.Fatalf("%s", f.Error())
+			}
+		}
+		st.Record([]byte(fmt.Sprintf("default|%d|%d", n, r%64)), true, []string{"family:default-instance"}, func() any {
+			return map[string]any{"family": "package-level default instance, fresh types", "goroutines": n}
+		})
+	}
+}
+
+// runOpDefault is runOp through the package-level functions (the default instance).
+func runOpDefault(op c07Op) (out string) {
+	defer func() {
+		if r := recover(); r != nil {
+			out = fmt.Sprintf("panic: %v", r)
+		}
+	}()
+	switch op.Kind {
+	case "codec":
+		c, err := plenc.CodecForType(op.T.Build())
+		if err != nil || c == nil {
+			return "codec-error"
+		}
+		return "codec-ok wt=" + fmt.Sprint(c.WireType())
+	case "marshal":
+		rv := vh.ToReflect(op.T, op.V)
+		data, err := plenc.Marshal(nil, rv.Addr().Interface())
+		if err != nil {
+			return "marshal-error"
+		}
+		cn, err := vh.Canon(op.T, data, vh.Cfg{}, nil)
+		if err != nil {
+			return "unwalkable " + hex.EncodeToString(data)
+		}
+		return hex.EncodeToString(cn)
+	default:
+		data := vh.RefEncode(op.T, op.V, vh.Cfg{})
+		target := reflect.New(op.T.Build())
+		if err := plenc.Unmarshal(data, target.Interface()); err != nil {
+			return "unmarshal-error"
+		}
+		b, _ := json.Marshal(vh.FromReflect(op.T, target.Elem()))
+		return string(b)
+	}
 }
 
 func init() { registrars = append(registrars, c07.Register) }
